@@ -24,3 +24,17 @@ Definition c05_quote_pred (i : nat) (s out : str) : bool :=
 
 (** canonical text of the component a requoter writes (used to generate C04 inputs) *)
 Definition canon_n (i : nat) (s : str) : bool := canon (quoter_n i) s.
+
+(** known finding F1b: a '%' followed within two characters by a lone surrogate (the
+    compiled quoter looks ahead over code points, the pure-Python one over bytes after the
+    surrogate has been dropped) *)
+Fixpoint kf_f1b_str (s : str) : bool :=
+  match s with
+  | [] => false
+  | c :: r =>
+      ((c =? 37) && match r with
+                    | a :: b :: _ => is_sur a || is_sur b
+                    | [a] => is_sur a
+                    | [] => false end)
+      || kf_f1b_str r
+  end.
